@@ -34,6 +34,11 @@ type C19Plan struct {
 type SpillCut struct {
 	File int `json:"file"`
 	At   int `json:"at"`
+	// Tail: cut inside the last row of the file (At picks the byte). Used when the file is cut while it is
+	// being read: a cut below the reader's position would act at that position, which may be a row
+	// boundary no reader can tell from the end of the run; a cut inside the last row is either still
+	// ahead of the reader (an unexpected EOF) or already behind it (no effect)
+	Tail bool `json:"tail,omitempty"`
 }
 
 // cutSpill truncates one spill file inside a row. Returns false if there was nothing to cut.
@@ -74,6 +79,18 @@ func cutSpill(c *SpillCut) bool {
 		bound[off] = true
 	}
 	at := c.At % len(b)
+	if c.Tail {
+		last := 0
+		for k := range bound {
+			if k < len(b) && k > last {
+				last = k
+			}
+		}
+		if len(b)-last < 2 {
+			return false
+		}
+		at = last + 1 + c.At%(len(b)-last-1)
+	}
 	for bound[at] {
 		at++
 	}
